@@ -260,7 +260,14 @@ def prove(prop_id: str, prop_modules: list[str], timeout: int = 1800) -> dict:
     hits = forbidden_hits(all_files)
     for h in hits:
         failed[f"<forbidden {h}>"] = "forbidden construct in proof sources"
-    discharged = [n for n in names if n not in failed] if ok else [n for n in names if n not in failed]
+    if ok:
+        discharged = [n for n in names if n not in failed]
+    else:
+        # the module did not compile: nothing in it was accepted by the kernel as a whole. We still
+        # name the theorems whose own proofs failed, but count no theorem as discharged.
+        discharged = []
+        for n in names:
+            failed.setdefault(n, "not checked: the module (or a module it imports) does not compile")
     return {
         "obligations": names,
         "discharged": discharged,
@@ -347,7 +354,9 @@ class Check:
             self.coverage["leanchecker"] = res["leanchecker"]
         ax = sorted({a for v in res["axioms"].values() for a in v})
         self.coverage["axioms_reported"] = sorted(set(self.coverage.get("axioms_reported", [])) | set(ax))
-        for name, why in res["failed"].items():
+        own = {n: w for n, w in res["failed"].items() if not str(w).startswith("not checked:")}
+        shown = own or dict(list(res["failed"].items())[:1])
+        for name, why in list(shown.items())[:8]:
             self.broken.append({"kind": "proof", "theorem": name, "detail": why})
         if not res["build_ok"] and not res["failed"]:
             self.broken.append({"kind": "proof", "theorem": "<build>", "detail": res["log"][-800:]})
